@@ -252,6 +252,7 @@ def _decorate_namespace_property(
         base_postconditions = []  # type: List[Contract]
 
         bases_have_func = False
+        inherited_from_base = False
         for base in bases:
             if hasattr(base, key):
                 base_property = getattr(base, key)
@@ -275,6 +276,10 @@ def _decorate_namespace_property(
                 if base_func is None:
                     continue
 
+                if base_func is func:
+                    inherited_from_base = True
+                    break
+
                 bases_have_func = True
 
                 # Check if there is a checker function in the base class
@@ -287,6 +292,12 @@ def _decorate_namespace_property(
                         base_contract_checker.__postcondition_snapshots__
                     )
                     base_postconditions.extend(base_contract_checker.__postconditions__)
+
+        if inherited_from_base:
+            # The accessor is the very function of a base class, e.g., the setter when the sub-class re-defines only
+            # the deleter with ``@Base.some_property.deleter``. It already carries the contracts of the hierarchy;
+            # collapsing them once more would modify the contracts of the base class.
+            continue
 
         # Add preconditions and postconditions of the function
         preconditions = []  # type: List[List[Contract]]
